@@ -399,6 +399,7 @@ let parse_rops (s : Stdlib.String.t) : rop list =
         | ["e"] -> Some REnter
         | ["m"; d] -> Some (RMov (zs d))
         | ["mu"; d] -> Some (RMovU (zs d))
+        | ["mj"; d] -> Some (RMovJ (zs d))
         | ["pre"; a; b] -> Some (RPre (zs a, zs b))
         | ["g"; k] -> Some (RGet (zs k))
         | ["s"; k; v] -> Some (RSet (zs k, zs v))
